@@ -80,6 +80,28 @@ def _run_case(case, ctx):
             data["slices"] = [s_ * unit for s_ in data["slices"]]
         else:
             data["X"], data["M"] = data["X"] * unit, data["M"] * unit
+    if algo == "tucker" and data["kind"] == "tensor" and case["idx"] % 6 == 5:
+        # Tucker with some factors supplied and kept fixed: still "the last reported value is the error of the returned decomposition"
+        from tensorly import decomposition as D
+        X = data["X"]
+        order = X.ndim
+        rk = [int(rs.randint(1, s_ + 1)) for s_ in X.shape]
+        fs0 = [gen.orth(rs, s_, r_, dt) for s_, r_ in zip(X.shape, rk)]
+        core0 = gen.arr(rs, rk, dt)
+        nfix = int(rs.randint(1, order))
+        fixed = sorted(rs.choice(order, size=nfix, replace=False).tolist())
+        k = int(rs.randint(1, 6))
+        desc = {"algo": algo, "data": data["cls"], "shape": list(X.shape), "rank": rk, "fixed_factors": fixed, "n_iter_max": k}
+        ctx.count("checked/%s" % algo)
+        ctx.count("values/fixed-factors")
+        out, errs = D.tucker(X, rk, init=(core0.copy(), [f.copy() for f in fs0]), fixed_factors=list(fixed), n_iter_max=k, tol=0, return_errors=True)
+        if errs:
+            te, sc = decomp.true_error("tucker", data, decomp.snapshot(out))
+            ctx.nontriv(desc)
+            if not np.isfinite(float(errs[-1])) or abs(float(errs[-1]) ** 2 - te ** 2) > 1e5 * eps * max(sc, 1.0):
+                ctx.violation("C06:tucker:last-error:fixed-factors", "tucker(fixed_factors=%s), n_iter_max=%d: last reported error %.9g but the returned decomposition has true error %.9g" % (
+                    fixed, k, float(errs[-1]), te), desc)
+        return
     rank = decomp.pick_rank(rs, algo, data)
     if algo == "cmtf":
         rank = min(rank, min(data["shape"][0]), data["shape"][1][1])
